@@ -45,7 +45,20 @@ def run(ctx):
                        "duplicates are excluded by the declared key itself")
                 continue
             ctx.ob("R10.dup", f.construct, f.ok, f.site, f.detail, pth)
-        elif f.kind in ("parent_insert", "child_delete", "index"):
+        elif f.kind == "parent_insert":
+            n["inv"] += 1
+            if not f.ok:
+                # the invariant is not crash-stable: acceptable iff every
+                # consumer of 'first side row' guards the empty case
+                ptab = f.event["stmt"].table
+                bad = [c for inv, cs in e3.unguarded_consumers.items()
+                       if inv[0] == ptab for c in cs]
+                ctx.ob("R10.inv", f.construct, not bad, f.site,
+                       (f.detail + "; every consumer guards the empty case") if not bad
+                       else f.detail + "; unguarded consumer: " + bad[0], pth)
+            else:
+                ctx.ob("R10.inv", f.construct, True, f.site, f.detail)
+        elif f.kind in ("child_delete", "index"):
             n["inv"] += 1
             ctx.ob("R10.inv", f.construct, f.ok, f.site, f.detail, pth)
     ctx.require("R10.fk", n["fk"], 8, "FK obligations")
